@@ -119,7 +119,7 @@ func (q c09Req) String() string {
 }
 
 func runC09(c *Ctx) {
-	c.Rule("a structure-aware request sweep against two muxes (plain; interceptors + stats handler) with 13 rules (multi-segment variables with tokens after wildcards, deep wildcards, verbs, typed and well-known-type captures, body fields, client / server / bidi streams, a WebSocket rule): paths are instantiated templates cut at every rune, extended, with doubled slashes, stray ':' '{' '*' '%' NUL and multi-byte runes, or random; queries from field names x valid / invalid / nested / repeated / unknown / badly escaped values; every entry path by content type and protocol version (transcoding JSON / protobuf, gRPC +proto/+json/unknown codec, gRPC-web binary and text, WebSocket upgrade with and without a key) x methods x Accept / Content-Encoding / Accept-Encoding / Grpc-Encoding (gzip, identity, unknown) / Grpc-Timeout junk; bodies: valid encodings, truncated at every position class, random bytes, frames with every flag and size relation (0, exact, +-1, 2^31, 2^32-1) x valid / gzip / corrupt gzip / truncated gzip payloads, JSON with unbalanced braces, strings cut open, deep nesting, length prefixes up to 2^64-1; body readers delivering all at once, byte by byte, or in random pieces, with io.EOF with or after the last data. Each request runs under a watchdog: it must return (no hang), must not panic, and must leave a well-formed status line. Non-trivial: every request; distinct by request.")
+	c.Rule("a structure-aware request sweep against three muxes (plain; interceptors + stats handler; one on which nothing has been registered yet) with 13 rules (multi-segment variables with tokens after wildcards, deep wildcards, verbs, typed and well-known-type captures, body fields, client / server / bidi streams, a WebSocket rule): paths are instantiated templates cut at every rune, extended, with doubled slashes, stray ':' '{' '*' '%' NUL and multi-byte runes, or random; queries from field names x valid / invalid / nested / repeated / unknown / badly escaped values; every entry path by content type and protocol version (transcoding JSON / protobuf, gRPC +proto/+json/unknown codec, gRPC-web binary and text, WebSocket upgrade with and without a key) x methods x Accept / Content-Encoding / Accept-Encoding / Grpc-Encoding (gzip, identity, unknown) / Grpc-Timeout junk; bodies: valid encodings, truncated at every position class, random bytes, frames with every flag and size relation (0, exact, +-1, 2^31, 2^32-1) x valid / gzip / corrupt gzip / truncated gzip payloads, JSON with unbalanced braces, strings cut open, deep nesting, length prefixes up to 2^64-1; body readers delivering all at once, byte by byte, or in random pieces, with io.EOF with or after the last data. Each request runs under a watchdog: it must return (no hang), must not panic, and must leave a well-formed status line. Non-trivial: every request; distinct by request.")
 	c.Assume("net/http delivers header and URL parsing; the request objects are built with httptest.NewRequest (targets that net/http itself refuses to parse are skipped)")
 	ri := &recInterceptors{}
 	st := &recStats{}
@@ -540,11 +540,15 @@ func runC09(c *Ctx) {
 	}
 	n := c.N(6000, 150000)
 	hung := false
+	emptyMux, _ := larking.NewMux()
 	for i := 0; i < n && !hung; i++ {
 		q := gen()
 		mux, opts := http.Handler(fxA.Mux), "plain"
 		if i%2 == 1 {
 			mux, opts = fxB.Mux, "interceptors+stats"
+		}
+		if i%8 == 7 && emptyMux != nil { // a mux nothing has been registered on yet (no published state)
+			mux, opts = emptyMux, "nothing-registered"
 		}
 		q.options = opts
 		var r *http.Request
